@@ -9,6 +9,10 @@ Theorem mark_model_matches_source :
 Proof. exact MarkSource.source_switches. Qed.
 Print Assumptions mark_model_matches_source.
 
+Theorem threshold_model_matches_source : gc_threshold_shape_ok = true.
+Proof. exact MarkSource.source_threshold. Qed.
+Print Assumptions threshold_model_matches_source.
+
 (* (1) after the mark phase every registered object reachable from the TLS values, the
    root-flagged entries or the stack words is marked — any heap, any fuel that sufficed *)
 Theorem mark_complete : forall h rg minptr maxptr order tls stack fuel m',
@@ -85,6 +89,16 @@ Print Assumptions history_collect_safe.
 
 Example history_starts_somewhere : inv st0.
 Proof. exact MarkSweepProofs.inv_st0. Qed.
+
+(* non-vacuity of threshold_collect_safe: in the example state (6 registered objects, mitems 6)
+   the allocation of a Ref to the otherwise unreachable w56 crosses the threshold; the state at
+   that collection point satisfies inv and heap_ok; the newborn (on the stack) keeps w56 alive,
+   so nothing is freed *)
+Example threshold_hypotheses_inhabited :
+  event_ok ex_state ex_event /\
+  collection_point ex_state ex_event = Some (ex_state1, cons w64 nil) /\ inv ex_state1 /\ heap_ok ex_state1 /\
+  exists s', step gc_tls_recurses gc_mar_guarded ex_state ex_event = Ok (s', nil).
+Proof. exact MarkSweepProofs.ex_threshold_point. Qed.
 
 (* non-vacuity of the hypotheses: a heap with a cycle through an Array of Ref, a shared Box, a
    Tuple leading through a raw object, a TLS root, a stack root and one unreachable object;
